@@ -749,9 +749,6 @@ func (m *Model) structuralErrorsUsed(prop string) []*Obl {
 		"(*strings.Builder).WriteString": "cannot fail", "(*strings.Builder).WriteByte": "cannot fail", "(*strings.Builder).WriteRune": "cannot fail",
 	}
 	allowedSite := map[string]string{
-		// atStatementEnd returns a bool: a lexical error after ';' is reported by the next parser step
-		// at the ';' instead (DESIGN.md 10.5, not repaired)
-		"Parser.atStatementEnd -> (*Parser).consume": "documented",
 		// sort copies elements that were already copied into the array, so copying cannot fail
 		// (explicit assumption array-elements-are-never-functions)
 		"getArrayPrototype/sort -> copyValue": "explicit assumption",
@@ -826,7 +823,7 @@ func (m *Model) structuralErrorsUsed(prop string) []*Obl {
 		st = "failed"
 	}
 	return []*Obl{{Name: "package lang#structural:no-error-result-is-discarded", Kind: "structural", Props: []string{prop}, Status: st, Solver: "govc (SSA scan)", Output: strings.Join(dropped, "\n"), Func: "package lang",
-		Src: "no call in package lang discards an error result, except output errors of the writer, strings.Builder writes, the ';' consumed by atStatementEnd, the element copies of sort and the root frame push"}}
+		Src: "no call in package lang discards an error result, except output errors of the writer, strings.Builder writes, the element copies of sort and the root frame push"}}
 }
 
 // structuralC20: the three nesting counters are written only by the functions that count with them, so
